@@ -148,11 +148,13 @@ func runC12(c *Ctx) {
 	r.Doc("Q2", "after the input is observed closed: no further receive, no output write, and the goroutine entry returns (its defer closes the output)", 2)
 	r.Doc("Q3", "no Sleep after the closed-input observation and none reachable from the batch function", 2)
 	r.Doc("Q4", "sleep amount is Interval - elapsed, elapsed measured from a clock reading taken before the batch", 1)
+	r.Doc("Q6", "(= L1 loop) the batch loop runs Limit.Quantity iterations as configured (an empty batch reads nothing, forever)", 1)
 	lr := resolveLimit(c, "Q1")
 	if lr == nil {
 		return
 	}
 	p := lr.p
+	limitBatchLoop(c, lr, "Q6")
 	// Q1 item flow
 	cfg := &ItemFlowConfig{
 		P:        p,
@@ -467,71 +469,8 @@ func runC04(c *Ctx) {
 		return
 	}
 	p := lr.p
-	// L1: the receive sits in exactly one loop, a counted loop with bound Limit.Quantity
+	limitBatchLoop(c, lr, "L1")
 	fn := lr.batch
-	var problems []string
-	comps := sccs(fn.Blocks, blockSet(fn.Blocks))
-	var loop map[*ssa.BasicBlock]bool
-	for _, comp := range comps {
-		set := blockSet(comp)
-		if set[lr.src.In.Block()] {
-			if loop != nil {
-				problems = append(problems, "UNDECIDED: receive is in more than one loop")
-			}
-			loop = set
-		}
-	}
-	if loop == nil {
-		problems = append(problems, "the input receive is not inside a loop of "+shortFn(p, fn))
-	} else {
-		// inner cycles around the receive (a nested loop) would allow several receives per counted iteration
-		ok := false
-		for b := range loop {
-			if !boundedHeader(b, loop) {
-				continue
-			}
-			iff := b.Instrs[len(b.Instrs)-1].(*ssa.If)
-			cmp := p.NormCmp(iff.Cond, loop[b.Succs[0]])
-			if cmp == nil {
-				continue
-			}
-			// continue-condition: a test before the body `iter < Quantity`, or a test after the body
-			// `iter+1 < Quantity` (the rotated form the compiler front end gives `for range n`),
-			// iter counted from 0 by 1
-			_, path, okp := cmp.R.StripConv().FieldPath()
-			wantLC := int64(1)
-			if b.Dominates(lr.src.In.Block()) {
-				wantLC = 0
-			}
-			if cmp.Op == token.LSS && okp && strings.Join(path, ".") == "opts.Limit.Quantity" && cmp.RC == 0 {
-				if ph, isPhi := cmp.L.V.(*ssa.Phi); isPhi && phiCountsFromZeroByOne(ph, loop) && cmp.LC == wantLC {
-					ok = true
-				}
-			}
-			if !ok {
-				problems = append(problems, "batch loop continues while "+cmp.String()+" (expected: iterations counted from 0 by 1 while < Limit.Quantity)")
-			}
-			// removing the header must leave no cycle through the receive
-			rest := map[*ssa.BasicBlock]bool{}
-			var restList []*ssa.BasicBlock
-			for x := range loop {
-				if x != b {
-					rest[x] = true
-					restList = append(restList, x)
-				}
-			}
-			for _, sub := range sccs(restList, rest) {
-				if blockSet(sub)[lr.src.In.Block()] {
-					problems = append(problems, "the receive sits in an inner loop: several elements can pass per counted iteration")
-				}
-			}
-		}
-		if !ok && len(problems) == 0 {
-			problems = append(problems, "batch loop is not a counted loop bounded by Limit.Quantity")
-		}
-		// loop entry: the pre-test 0 < Quantity or direct entry
-	}
-	r.Check(len(problems) == 0, "L1", p.FnKey(fn)+"#loop", p.Pos(fn.Pos()), "counted loop 0..Limit.Quantity around the single receive", strings.Join(dedup(problems), "; "))
 	// one write per received element (reuse item flow) and no other writer
 	cfg := &ItemFlowConfig{
 		P:         p,
@@ -647,4 +586,76 @@ func phiCountsFromZeroByOne(ph *ssa.Phi, loop map[*ssa.BasicBlock]bool) bool {
 	}
 	_ = types.Typ
 	return true
+}
+
+// limitBatchLoop (C04/L1, C12/Q6): the receive sits in exactly one loop, a counted loop from 0 by 1
+// bounded by Limit.Quantity as configured (a narrowed or converted bound can make the batch empty:
+// nothing is ever read again and the output is never closed).
+func limitBatchLoop(c *Ctx, lr *limitRoles, rule string) {
+	p := lr.p
+	// L1: the receive sits in exactly one loop, a counted loop with bound Limit.Quantity
+	fn := lr.batch
+	var problems []string
+	comps := sccs(fn.Blocks, blockSet(fn.Blocks))
+	var loop map[*ssa.BasicBlock]bool
+	for _, comp := range comps {
+		set := blockSet(comp)
+		if set[lr.src.In.Block()] {
+			if loop != nil {
+				problems = append(problems, "UNDECIDED: receive is in more than one loop")
+			}
+			loop = set
+		}
+	}
+	if loop == nil {
+		problems = append(problems, "the input receive is not inside a loop of "+shortFn(p, fn))
+	} else {
+		// inner cycles around the receive (a nested loop) would allow several receives per counted iteration
+		ok := false
+		for b := range loop {
+			if !boundedHeader(b, loop) {
+				continue
+			}
+			iff := b.Instrs[len(b.Instrs)-1].(*ssa.If)
+			cmp := p.NormCmp(iff.Cond, loop[b.Succs[0]])
+			if cmp == nil {
+				continue
+			}
+			// continue-condition: a test before the body `iter < Quantity`, or a test after the body
+			// `iter+1 < Quantity` (the rotated form the compiler front end gives `for range n`),
+			// iter counted from 0 by 1
+			_, path, okp := cmp.R.StripConv().FieldPath()
+			wantLC := int64(1)
+			if b.Dominates(lr.src.In.Block()) {
+				wantLC = 0
+			}
+			if cmp.Op == token.LSS && okp && strings.Join(path, ".") == "opts.Limit.Quantity" && cmp.RC == 0 {
+				if ph, isPhi := cmp.L.V.(*ssa.Phi); isPhi && phiCountsFromZeroByOne(ph, loop) && cmp.LC == wantLC {
+					ok = true
+				}
+			}
+			if !ok {
+				problems = append(problems, "batch loop continues while "+cmp.String()+" (expected: iterations counted from 0 by 1 while < Limit.Quantity)")
+			}
+			// removing the header must leave no cycle through the receive
+			rest := map[*ssa.BasicBlock]bool{}
+			var restList []*ssa.BasicBlock
+			for x := range loop {
+				if x != b {
+					rest[x] = true
+					restList = append(restList, x)
+				}
+			}
+			for _, sub := range sccs(restList, rest) {
+				if blockSet(sub)[lr.src.In.Block()] {
+					problems = append(problems, "the receive sits in an inner loop: several elements can pass per counted iteration")
+				}
+			}
+		}
+		if !ok && len(problems) == 0 {
+			problems = append(problems, "batch loop is not a counted loop bounded by Limit.Quantity")
+		}
+		// loop entry: the pre-test 0 < Quantity or direct entry
+	}
+	c.R.Check(len(problems) == 0, rule, p.FnKey(fn)+"#loop", p.Pos(fn.Pos()), "counted loop 0..Limit.Quantity around the single receive", strings.Join(dedup(problems), "; "))
 }
